@@ -2801,31 +2801,9 @@ LEFT JOIN conversions ON {join_condition}{group_by}{order_clause}{limit_clause}
                 # It's a direct measure reference - extract just the measure name
                 base_alias = base_ref.split(".")[1]
             else:
-                # It's an unqualified reference - check model first, then graph-level
-                base_metric = None
-                # Get model name from the cumulative metric reference
-                cum_model_name = m.split(".")[0] if "." in m else None
-                if cum_model_name:
-                    cum_model = self.graph.get_model(cum_model_name)
-                    if cum_model:
-                        base_metric = cum_model.get_metric(base_ref)
-
-                # Fallback to graph-level metric
-                if not base_metric:
-                    try:
-                        base_metric = self.graph.get_metric(base_ref)
-                    except KeyError:
-                        pass
-
-                if base_metric and base_metric.sql:
-                    # Use the underlying measure name
-                    if "." in base_metric.sql:
-                        base_alias = base_metric.sql.split(".")[1]
-                    else:
-                        base_alias = base_metric.sql
-                else:
-                    # Fallback to the metric name itself
-                    base_alias = base_ref
+                # It's an unqualified reference: the inner query exposes the referenced
+                # measure/metric under its own name
+                base_alias = base_ref
 
             # Partition by the non-time dimensions so running totals do not leak across groups
             cum_partition_cols = []
